@@ -670,6 +670,18 @@ def d_validate( ctx ):
                 else: wrong.append(( s, c, 'written elements must not extend past the requested range (endmax <= endactual)' ))
     for s, c, why in wrong:
         res.bad( src, s, c, why, func='Logix.reply_elements' )
+    # a PLAIN Write Tag carries exactly the elements it announces ( for the Fragmented service the count is that of the whole range ): an
+    # assert `<fragmented service> or <written end> == <requested end>` ( or len( data ) == elements ).  Sized from the data present alone,
+    # a truncated Write Tag that announces 5 elements and carries 2 is acknowledged and stores the 2.
+    found['plain write: written == announced'] = None
+    for s_, test in guards:
+        alts = test.values if isinstance( test, ast.BoolOp ) and isinstance( test.op, ast.Or ) else [ test ]
+        eqs = [ c_ for c_ in alts if isinstance( c_, ast.Compare ) and len( c_.ops ) == 1 and isinstance( c_.ops[0], ast.Eq )
+                and (( rld.depends( c_.left, is_wlen ) and ( dotted( c_.comparators[0] ) == endact_v or dotted( c_.comparators[0] ) in elm_vars ))
+                     or ( rld.depends( c_.comparators[0], is_wlen ) and ( dotted( c_.left ) == endact_v or dotted( c_.left ) in elm_vars ))) ]
+        others = [ c_ for c_ in alts if c_ not in eqs ]
+        if eqs and all( 'WR_FRG_RPY' in attrs_in( o_ ) and 'WR_TAG_RPY' not in attrs_in( o_ ) for o_ in others ):
+            found['plain write: written == announced'] = s_
     if found['endactual<=cnt'] is not None and found['elm<=cnt'] is None and not wrong:
         found['elm<=cnt'] = found['endactual<=cnt']   # implied: beg >= 0
     for k, s in found.items():
@@ -1123,7 +1135,10 @@ def p_replybit( ctx ):
                     res.ok( src, n.stmt, '%s: empty-request termination signal' % qn, nontrivial=False ); continue
                 deleg = [ m for m in cfg.nodes if m.kind == 'stmt' and isinstance( m.stmt, ast.Expr ) and isinstance( m.stmt.value, ast.Call )
                           and isinstance( m.stmt.value.func, ast.Attribute ) and m.stmt.value.func.attr == 'request' ]
-                if cfg.must_pass( cfg.entry, n, set( stores ) | set( deleg )):
+                # ... or an error reply rendered for the request on a handler path ( <x>.input = bytearray( <Class>.produce( <x> )) )
+                errs = [ m for m in cfg.nodes if m.kind == 'stmt' and isinstance( m.stmt, ast.Assign ) and ( dotted( m.stmt.targets[0] ) or '' ).endswith( '.input' )
+                         and any( isinstance( c_, ast.Call ) and isinstance( c_.func, ast.Attribute ) and c_.func.attr == 'produce' for c_ in ast.walk( m.stmt.value )) ]
+                if cfg.must_pass( cfg.entry, n, set( stores ) | set( deleg ) | set( errs )):
                     res.ok( src, n.stmt, '%s: normal exit after producing the reply / delegating' % qn )
                 else:
                     res.bad( src, n.stmt, n.stmt, 'a normal exit is reachable without producing a reply', func=qn )
@@ -1905,6 +1920,34 @@ def p_closure( ctx ):
     else:
         res.bad( src, cl, 'closure', 'each member must be parsed under `with target.parser` and the parse asserted terminal' )
         return res
+    # the member slices: every slice <data>[ beg : end ] whose bounds come from the offset table is preceded by a test of the lower bound
+    # against 0 ( an offset that points into the offset table gives a NEGATIVE begin; Python counts it from the END of the data, so a member
+    # is parsed - and executed - from bytes of another member )
+    sl = [ x for x in ast.walk( cl ) if isinstance( x, ast.Subscript ) and isinstance( x.slice, ast.Slice ) and isinstance( x.slice.lower, ast.Name ) and isinstance( x.slice.upper, ast.Name ) ]
+    if not sl:
+        raise AnalysisError( 'state_multiple_service.terminate.closure: member slice <data>[ beg : end ] not found' )
+    BEG_ = sl[0].slice.lower.id
+    def lower_tests():
+        out = []
+        for n_ in ast.walk( cl ):
+            t_ = n_.test if isinstance( n_, ( ast.If, ast.Assert )) else None
+            if t_ is None:
+                continue
+            for c_ in ast.walk( t_ ):
+                if isinstance( c_, ast.Compare ):
+                    left = c_.left
+                    for op_, r_ in zip( c_.ops, c_.comparators ):
+                        if ( try_fold( left ) == 0 and isinstance( op_, ast.LtE ) and dotted( r_ ) == BEG_ ) or ( dotted( left ) == BEG_ and isinstance( op_, ast.GtE ) and try_fold( r_ ) == 0 ) \
+                           or ( dotted( left ) == BEG_ and isinstance( op_, ast.Lt ) and try_fold( r_ ) == 0 ) or ( try_fold( left ) == 0 and isinstance( op_, ast.Gt ) and dotted( r_ ) == BEG_ ):
+                            out.append( n_ )
+                        left = r_
+        return out
+    lt_ = lower_tests()
+    if lt_ and all( min( g_.lineno for g_ in lt_ ) < x.lineno for x in sl ):
+        res.ok( src, lt_[0], 'the begin of every member slice is tested against 0 before it is used ( %d slices )' % len( sl ))
+    else:
+        res.bad( src, sl[0], 'the member slice [ %s : ... ] is taken from offsets that were never checked' % BEG_,
+                 'an offset pointing into the offset table ( 0, 2 ... ) gives a negative begin, which Python counts from the end of the data: a member is parsed, and executed, from the tail of another member\'s bytes' )
     # a member joins the list of requests to execute only AFTER its parse completed: the closure runs as a post-processing step whose
     # exceptions are merely logged, so whatever is already in the list when a member fails to parse is executed by Message_Router.request
     ccfg = CFG( cl )
@@ -2765,6 +2808,37 @@ def s_resolve( ctx ):
             else:
                 res.bad( src, c, '%s: path resolution #%d ( %s ) is not inside a status-converting try' % ( qn, ordinal, call_name( c )),
                          'when the path does not resolve (e.g. an unknown tag) the standalone request fails as a whole (exception -> encapsulation status 0x08, session ends) while the same request as a bundle member gets CIP status 0x05', func=qn )
+    return res
+
+
+@rule( 'S-LONE', props=( 'C07', ), floor=1 )
+def s_lone( ctx ):
+    """Connection_Manager.request ( a request sent ALONE ): a request the target object cannot parse or does not recognise is answered like the
+    same request inside a Multiple Service Packet - with a CIP error reply - not by failing the whole EtherNet/IP request: the try around
+    `target.request( data.request )` must not hand the exception on ( Message_Router.request's member loop converts it to service | 0x80,
+    status 0x08 )"""
+    res = Result( 'S-LONE' )
+    src = ctx.src( DEVICE )
+    fn = src.get( 'Connection_Manager.request' )
+    calls = [ c for c in walk_no_nested( fn ) if isinstance( c, ast.Call ) and isinstance( c.func, ast.Attribute ) and c.func.attr == 'request'
+              and isinstance( c.func.value, ast.Name ) and c.args and dotted( c.args[0] ) == 'data.request' ]
+    if not calls:
+        raise AnalysisError( 'Connection_Manager.request: dispatch <target>.request( data.request ) not found' )
+    for c in calls:
+        tries = [ a for a in src.ancestors( c ) if isinstance( a, ast.Try ) and any( c is x for b in a.body for x in ast.walk( b )) ]
+        # the handler renders an error reply ( <x>.input = ... produce( ... ) as a statement of its own body ) and hands the exception on only under
+        # a condition ( no target object was found: nobody to answer )
+        def answers_( h ):
+            renders = any( isinstance( b, ast.Assign ) and ( dotted( b.targets[0] ) or '' ).endswith( '.input' )
+                           and any( isinstance( c_, ast.Call ) and isinstance( c_.func, ast.Attribute ) and c_.func.attr == 'produce' for c_ in ast.walk( b.value )) for b in h.body )
+            bare = any( isinstance( b, ast.Raise ) for b in h.body )
+            return renders and not bare
+        conv = [ t for t in tries for h in t.handlers if ( h.type is None or dotted( h.type ) in ( 'Exception', 'BaseException' )) and answers_( h ) ]
+        if conv:
+            res.ok( src, c, 'a lone request the target cannot serve is answered with a CIP error reply' )
+        else:
+            res.bad( src, c, 'Connection_Manager.request: a failure of the lone request in the target object is handed on ( raise )',
+                     'a request with an unsupported service code, or one the target\'s parser rejects, fails the whole EtherNet/IP request when sent alone ( encapsulation status 0x08, the session ends, pipelined requests behind it are lost ); the same request inside a Multiple Service Packet is answered service | 0x80, status 0x08 and its neighbours run', func='Connection_Manager.request' )
     return res
 
 
